@@ -393,6 +393,34 @@ def run(ctx):
                     else:
                         ctx.fail("C11-R6", cb.path, "sentinel", "non-MSD sentinel %g is not above the threshold range [0,1]" % v, cb.loc())
         if not okk:
+            # loop form: the per-state tuple is pushed in stream() itself (possibly built by a helper
+            # that was folded in): every tuple that can reach a push has the msd payload or one
+            # constant as its second component
+            from ..expr import alternatives
+            meb = ExprBuilder(ms)
+            seen_c, bad_, ntup = set(), [], 0
+            for pbb, pt in ms.calls():
+                pc = pt["callee"]
+                if pc["k"] != "fndef" or not cm.callee_name(pc).endswith("Vec::<T, A>::push") or len(pt["args"]) != 2:
+                    continue
+                for tup in alternatives(meb, meb.at(pbb).op(pt["args"][1])):
+                    if not (tup[0] == "agg" and tup[1] == "tuple" and len(tup[2]) == 2):
+                        bad_.append(show(tup)[:60])
+                        continue
+                    ntup += 1
+                    for a in alternatives(meb, tup[2][1]):
+                        if a[0] == "c" and not isinstance(a[1], (bool, str)) and a[1] is not None:
+                            seen_c.add(float(a[1]))
+                        elif "msd" not in show(a):
+                            bad_.append(show(a)[:60])
+            if ntup and not bad_ and len(seen_c) == 1:
+                v = seen_c.pop()
+                okk = True
+                if v > 1.0:
+                    ctx.ok("C11-R6", "non-MSD streams: the voicing weight pushed per state is the msd value or the constant %g > 1 >= every clamped threshold (loop form)" % v, ms.loc())
+                else:
+                    ctx.fail("C11-R6", ms.path, "sentinel", "non-MSD sentinel %g is not above the threshold range [0,1]" % v, ms.loc())
+        if not okk:
             ctx.fail("C11-R6", ms.path, "sentinel", "no `msd.unwrap_or(sentinel)` found", ms.loc())
     ctx.assume("thresholds are clamped to [0,1] (C20-R1)")
     # ---- R8: the threshold the pipeline reads is the one the user set
